@@ -1122,7 +1122,7 @@ impl HistSim {
             acc.inc("histories.inputs_in_reused_buffer(same address, other content)");
         }
         if let Subject::Dyn { grammar, .. } | Subject::CacheDyn { grammar } = &case.subject {
-            if gram::contains(grammar, &|x| matches!(x, G::Text(k) if *k >= 9)) {
+            if gram::contains(grammar, &|x| matches!(x, G::Text(k) if (9..=12).contains(k))) {
                 acc.inc("histories.subject_with_regex");
             } else if gram::contains(grammar, &|x| matches!(x, G::Text(_))) {
                 acc.inc("histories.subject_with_text_parsers");
